@@ -22,23 +22,38 @@ type monC08w struct {
 	lvl         monC13   // reference model of what each browser's session has proved (full login completed / remember cookie only)
 	viaRemember []string // per browser: the user a remember cookie put into the session, until a login as that user completes
 	twofaFor    []string // per browser: the user whose second-factor step set the session's 2FA mark
+	signedOut   []bool   // per browser: the application signed the browser out (DelAllSession + DelKnownCookie) and nothing has logged it in since
 	unsure      []bool   // per browser: a login-type request with a failed backend call left a user in the session (it may have completed the credential check before it failed)
 }
 
 func (c *monC08w) Init(m *Machine) {
 	c.viaRemember, c.twofaFor = make([]string, len(m.W.Jars)), make([]string, len(m.W.Jars))
 	c.unsure = make([]bool, len(m.W.Jars))
+	c.signedOut = make([]bool, len(m.W.Jars))
 }
 
 // track follows the session's provenance independently of the half-auth mark the library keeps.
 func (c *monC08w) track(m *Machine, s *Step) {
 	c.lvl.trackLevel(m, s)
 	b := s.Op.B % len(m.W.Jars)
+	if s.Op.K == "setcookie" || s.Op.K == "steal" {
+		c.signedOut[b] = false
+	}
 	if s.Op.K == "newsess" || s.Resp == nil {
 		if s.Op.K == "newsess" {
 			c.viaRemember[b], c.twofaFor[b], c.unsure[b] = "", "", false
 		}
 		return
+	}
+	switch s.Op.K {
+	case "visit":
+		if s.Op.S == "/signout" && s.Resp.Status == 204 && s.Resp.Panic == nil {
+			c.signedOut[b] = true
+			m.flag("application-signout")
+		}
+	case "set", "get", "logout", "advance":
+	default:
+		c.signedOut[b] = false // anything that may log in or hand the browser a cookie
 	}
 	uid := s.Resp.UID()
 	switch s.Op.K {
@@ -88,6 +103,11 @@ func (c *monC08w) After(m *Machine, s *Step) *Violation {
 	if !r.Rec.ProbeRan {
 		m.flag("refused")
 		return nil
+	}
+	if b := s.Op.B % len(m.W.Jars); c.signedOut[b] {
+		// the session named a user once; the application's sign-out response deleted everything and the cookie, nothing
+		// has logged the browser in since: whatever the stored session says now, it names nobody
+		return violation("C08", "handler-ran-after-application-signout:"+name, "the handler behind the %s requirement ran (saw user %q) for a browser the application had signed out with DelAllSession + DelKnownCookie (session before the request: %v)", name, r.Rec.ProbeUID, r.SessBefore)
 	}
 	uid := r.SessBefore[authboss.SessionKey]
 	half := r.SessBefore[authboss.SessionHalfAuthKey] == "true"
@@ -169,7 +189,7 @@ func (c *monC08w) moduleRouteRefusal(m *Machine, s *Step) *Violation {
 
 func (c *monC08w) End(m *Machine) *Violation { return nil }
 
-var kindsC08w = append(append([]wk{}, worldKinds...), wk{"visit", 30}, wk{"snip:remember", 8}, wk{"snip:2fa", 4}, wk{"snip:idle", 3}, wk{"snip:switch2fa", 5}, wk{"totpsetup", 4}, wk{"smssetup", 3}, wk{"totpconfirm", 2}, wk{"regen", 2}, wk{"newsess", 4})
+var kindsC08w = append(append([]wk{}, worldKinds...), wk{"visit", 30}, wk{"snip:remember", 8}, wk{"snip:2fa", 4}, wk{"snip:idle", 3}, wk{"snip:switch2fa", 5}, wk{"totpsetup", 4}, wk{"smssetup", 3}, wk{"totpconfirm", 2}, wk{"regen", 2}, wk{"newsess", 4}, wk{"snip:appsignout", 8})
 
 var profC08w = profile{
 	arbVariants: true,
